@@ -1,5 +1,8 @@
 import Lean.Data.Json
 import Verif.Model.HttpDecide
+import Verif.Model.HttpHeaders
+import Verif.Model.SseStream
+import Verif.Gen.HttpParams
 open Lean
 -- DRIVER: http
 /-! Driver glue for C11.  `op = "run"`: the sender-loop model on a sequence of (request id,
@@ -173,9 +176,62 @@ def handleRender (j : Json) : Except String Json := do
     ("events", Json.arr ((parseText (renderText evs eols.toList tail)).map
         (fun e => Json.arr #[Json.str (String.ofList e.1), Json.str (String.ofList e.2)])).toArray)]
 
+/-! header construction and parameter validation -/
+
+def hdrsOf (j : Json) : Except String Verif.Model.HttpHeaders.Hdrs := do
+  let a ← j.getArr?
+  a.toList.mapM (fun p => do
+    let k ← (← p.getArrVal? 0).getStr?
+    let v ← (← p.getArrVal? 1).getStr?
+    pure (k.toList, v.toList))
+
+def hdrsJson (h : Verif.Model.HttpHeaders.Hdrs) : Json :=
+  Json.arr (h.map (fun p => Json.arr #[Json.str (String.ofList p.1), Json.str (String.ofList p.2)])).toArray
+
+/-- `{"headers": [[k,v]..], "ua": str, "bearer": str|null, "env": str|null, "sessions": [str|null..]}`
+    → the configured header dict after `setup_auth_headers`, and the POST header dict for each session state -/
+def handleHeaders (j : Json) : Except String Json := do
+  let c : Verif.Model.HttpHeaders.Cfg := {
+    headers := ← hdrsOf (← j.getObjVal? "headers"),
+    userAgent := (← j.getObjValAs? String "ua").toList,
+    bearer := (optStr j "bearer").map String.toList }
+  let cfg := Verif.Model.HttpHeaders.setupAuth c
+  let env := (optStr j "env").map String.toList
+  let sessions ← j.getObjValAs? (Array Json) "sessions"
+  let posts := sessions.toList.map (fun s =>
+    let sess := match s with | .str v => some v.toList | _ => none
+    hdrsJson (Verif.Model.HttpHeaders.postHeaders cfg env sess))
+  return Json.mkObj [("cfg", hdrsJson cfg), ("posts", Json.arr posts.toArray)]
+
+/-- `{"url": str, "timeout": int, "max_retries": int, "retry_delay": int, "mcr": int}` (numbers scaled
+    by 1024 for the float fields) → accept flags of the regenerated validators and the stored url -/
+def handleParams (j : Json) : Except String Json := do
+  let u := (← j.getObjValAs? String "url").toList
+  return Json.mkObj [
+    ("url", Json.bool (Verif.Gen.HttpParams.urlAccept u)),
+    ("url_stored", Json.str (String.ofList (Verif.Gen.HttpParams.urlNormalize u))),
+    ("timeout", Json.bool (Verif.Gen.HttpParams.timeoutAccept (← j.getObjValAs? Int "timeout"))),
+    ("max_retries", Json.bool (Verif.Gen.HttpParams.maxRetriesAccept (← j.getObjValAs? Int "max_retries"))),
+    ("retry_delay", Json.bool (Verif.Gen.HttpParams.retryDelayAccept (← j.getObjValAs? Int "retry_delay"))),
+    ("max_concurrent_requests", Json.bool (Verif.Gen.HttpParams.maxConcurrentRequestsAccept (← j.getObjValAs? Int "mcr")))]
+
+/-- `{"chunks": [str..]}` → what the streaming branch hands to the read stream -/
+def handleStream (j : Json) : Except String Json := do
+  let chunks ← j.getObjValAs? (Array String) "chunks"
+  let aborted := (j.getObjValAs? Bool "aborted").toOption.getD false
+  let evs := if aborted then Verif.Model.SseStream.parseStreamAborted (chunks.toList.map String.toList)
+             else Verif.Model.SseStream.parseStream (chunks.toList.map String.toList)
+  let msgs := evs.flatMap (sseEventMsgs leanDec)
+  return Json.mkObj [
+    ("events", Json.arr (evs.map (fun e => Json.arr #[Json.str (String.ofList e.1), Json.str (String.ofList e.2)])).toArray),
+    ("outs", Json.arr (msgs.map (fun m => outToJson (.pass m))).toArray)]
+
 def handle (j : Json) : Except String Json := do
   match optStr j "op" with
   | some "render" => handleRender j
+  | some "stream" => handleStream j
+  | some "headers" => handleHeaders j
+  | some "params" => handleParams j
   | _ => handleRun j
 
 end Verif.Drv.Http
